@@ -19,7 +19,7 @@ MODEL_ENTRY_POINTS = ["solver", "from_permeate", "permeate_composition", "separa
                       "ideal_iso", "ideal_noniso", "nonideal_iso", "nonideal_noniso", "partial_pressures"]
 
 
-def invoke(ep, mix, model, x, t, tp, pp, steps=2, pv=None):
+def invoke(ep, mix, model, x, t, tp, pp, steps=2, pv=None, precision=None):
     """call entry point `ep` with otherwise valid arguments; returns ('ok', value) | ('raise', exc)."""
     mem = U.make_membrane(mix, 1e-3, 2e-5, t_ref=t, ea1=25000.0, ea2=60000.0) if pv is None else pv.membrane
     pv = U.Pervaporation(membrane=mem, mixture=mix) if pv is None else pv
@@ -27,22 +27,23 @@ def invoke(ep, mix, model, x, t, tp, pp, steps=2, pv=None):
     p1, p2 = U.Permeance(value=1e-3), U.Permeance(value=2e-5)
     cond = U.Conditions(membrane_area=0.05, initial_feed_temperature=t, initial_feed_amount=50.0, initial_feed_composition=comp,
                         permeate_temperature=tp, permeate_pressure=pp)
+    pk = {} if precision is None else {"precision": precision}  # an optional argument that must not switch the specification check off
     if ep == "solver":
         return core.call(pv.calculate_partial_fluxes, feed_temperature=t, composition=comp, permeate_temperature=tp,
-                         permeate_pressure=pp, first_component_permeance=p1, second_component_permeance=p2, calculation_type=model)
+                         permeate_pressure=pp, first_component_permeance=p1, second_component_permeance=p2, calculation_type=model, **pk)
     if ep == "from_permeate":
         return core.call(pv.get_partial_fluxes_from_permeate_composition, first_component_permeance=p1, second_component_permeance=p2,
                          permeate_composition=U.Composition(p=0.9, type="weight"), feed_composition=comp, feed_temperature=t,
                          permeate_temperature=tp, permeate_pressure=pp, calculation_type=model)
     if ep == "permeate_composition":
         return core.call(pv.calculate_permeate_composition, feed_temperature=t, composition=comp, permeate_temperature=tp,
-                         permeate_pressure=pp, calculation_type=model)
+                         permeate_pressure=pp, calculation_type=model, **pk)
     if ep == "separation_factor":
         return core.call(pv.calculate_separation_factor, feed_temperature=t, composition=comp, permeate_temperature=tp,
-                         permeate_pressure=pp, calculation_type=model)
+                         permeate_pressure=pp, calculation_type=model, **pk)
     if ep == "ideal_curve":
         return core.call(pv.ideal_diffusion_curve, feed_temperature=t, compositions=[comp, U.Composition(p=min(x + 0.05, 1.0), type="weight")],
-                         permeate_temperature=tp, permeate_pressure=pp, calculation_type=model)
+                         permeate_temperature=tp, permeate_pressure=pp, calculation_type=model, **pk)
     if ep == "ideal_curve_empty":
         return core.call(pv.ideal_diffusion_curve, feed_temperature=t, compositions=[], permeate_temperature=tp, permeate_pressure=pp, calculation_type=model)
     if ep == "curve_from_fluxes_empty":
@@ -55,11 +56,11 @@ def invoke(ep, mix, model, x, t, tp, pp, steps=2, pv=None):
                              delta_composition=0.01, number_of_steps=steps, permeate_temperature=tp, permeate_pressure=pp,
                              calculation_type=model)
         f = pv.non_ideal_isothermal_process if ep == "nonideal_iso" else pv.non_ideal_non_isothermal_process
-        return core.call(f, conditions=cond, diffusion_curve_set=cs, number_of_steps=steps, delta_hours=0.1, calculation_type=model)
+        return core.call(f, conditions=cond, diffusion_curve_set=cs, number_of_steps=steps, delta_hours=0.1, calculation_type=model, **pk)
     if ep == "ideal_iso":
-        return core.call(pv.ideal_isothermal_process, number_of_steps=steps, delta_hours=0.1, conditions=cond, calculation_type=model)
+        return core.call(pv.ideal_isothermal_process, number_of_steps=steps, delta_hours=0.1, conditions=cond, calculation_type=model, **pk)
     if ep == "ideal_noniso":
-        return core.call(pv.ideal_non_isothermal_process, number_of_steps=steps, delta_hours=0.1, conditions=cond, calculation_type=model)
+        return core.call(pv.ideal_non_isothermal_process, number_of_steps=steps, delta_hours=0.1, conditions=cond, calculation_type=model, **pk)
     if ep == "pure_flux":
         return core.call(mem.get_estimated_pure_component_flux, t, mix.first_component, permeate_temperature=tp, permeate_pressure=pp)
     if ep == "curve_from_fluxes":
@@ -108,12 +109,16 @@ def judge_modes(case):
     t = case["T"]
     tp = t - 60.0 if case["tp"] else None
     pp = case.get("pp_value", 0.1) if case["pp"] else None  # includes a permeate pressure of exactly 0 / 0.0: "specified" is not "truthy"
+    if pp == "same_number_as_tp":
+        pp = t - 60.0  # the two values are numerically EQUAL (250.0 K and 250.0 kPa): still two specifications
+    elif pp == "same_number_as_tp_int":
+        tp, pp = int(round(t - 60.0)), float(int(round(t - 60.0)))
     if isinstance(pp, str):
         # a permeate pressure that happens to be CONSISTENT with the permeate temperature (a component's saturation pressure there,
         # exactly or to 0.03 %): stating both is still a double specification
         comp_ = mix.first_component if pp.startswith("psat1") else mix.second_component
         pp = float(comp_.get_vapor_pressure(t - 60.0)) * (1.0003 if pp.endswith("+") else 1.0)
-    st, r = invoke(case["ep"], mix, case["model"], case["x"], t, tp, pp)
+    st, r = invoke(case["ep"], mix, case["model"], case["x"], t, tp, pp, precision=case.get("precision"))
     v = []
     if st == "skip":
         return core.result("not-applicable", nontrivial=False)
@@ -276,8 +281,8 @@ def main(tier, seed):
     ts = core.lat([333.15, 353.15], seed)[:1] if q else core.lat([313.15, 333.15, 353.15], seed)
     U.install_fit_memo()
     sp = core.Space("permeate_specification", {"ep": ENTRY_POINTS + ["curve_from_permeances"], "mixture": mixes, "model": ["NRTL", "UNIQUAC"],
-                                               "tp": [False, True], "pp": [False, True], "pp_value": [0.1, 0.0, 0, 250.0, 1e-9, "psat1", "psat2", "psat1+"], "x": xs, "T": ts},  # 250 kPa: above every saturation pressure (no driving force)
-                    lambda c: U.has_model(U.get_mixture(c["mixture"]), c["model"]) and (c["pp"] or c["pp_value"] == 0.1))
+                                               "tp": [False, True], "pp": [False, True], "pp_value": [0.1, 0.0, 0, 250.0, 1e-9, "psat1", "psat2", "psat1+", "same_number_as_tp", "same_number_as_tp_int"], "precision": [None, 1.0, 1.5, 10.0], "x": xs, "T": ts},  # 250 kPa: above every saturation pressure (no driving force)
+                    lambda c: U.has_model(U.get_mixture(c["mixture"]), c["model"]) and (c["pp"] or c["pp_value"] == 0.1) and (c["precision"] is None or (c["tp"] and c["pp"] and c["pp_value"] in (0.1, 0.0))))
     m = core.run_space(rep, sp, judge_modes)
     for ep in ENTRY_POINTS:
         for cell in ("vac", "T", "p"):
